@@ -487,16 +487,23 @@ fn cmd_cross_check(m: &BTreeMap<String, String>) {
             return;
         }
     };
+    let mode_of: BTreeMap<String, String> = index
+        .iter()
+        .filter_map(|e| Some((e["module"].as_str()?.to_string(), e["req"]["mode"].as_str()?.to_string())))
+        .collect();
     let mut mods: BTreeMap<String, String> = BTreeMap::new();
     for it in file.items {
         if let syn::Item::Mod(md) = it {
             if let Some((_, items)) = md.content {
+                let name = md.ident.to_string();
+                // skip the `use ::derive_ex::{..}` line; a derive macro's output does not contain
+                // the item itself, the compiler's expansion of the module does
+                let skip = if mode_of.get(&name).map(|m| m == "derive").unwrap_or(false) { 2 } else { 1 };
                 let mut ts = proc_macro2::TokenStream::new();
-                for i in items.iter().skip(1) {
-                    // skip the `use ::derive_ex::{..}` line
+                for i in items.iter().skip(skip) {
                     i.to_tokens(&mut ts);
                 }
-                mods.insert(md.ident.to_string(), req::canon_loose(&ts));
+                mods.insert(name, req::canon_loose(&normalise_for_cross_check(ts)));
             }
         }
     }
@@ -514,11 +521,87 @@ fn cmd_cross_check(m: &BTreeMap<String, String>) {
             continue;
         };
         total += 1;
-        if req::canon_loose(&nts) == *real {
+        let n = req::canon_loose(&normalise_for_cross_check(nts));
+        if n == *real {
             same += 1;
         } else if verbose {
-            println!("differs: {name}\n  N: {native}\n  R: {}", real.replace('\u{1f}', " "));
+            println!("differs: {name}\n  N: {}\n  R: {}", n.replace('\u{1f}', " "), real.replace('\u{1f}', " "));
         }
     }
     println!("cross-check: {same} of {total} modules token-identical between the real host and engine N");
+}
+
+/// Removes what rustc's pretty-printer legitimately changes: trailing commas, the already
+/// expanded `::core::stringify!(x)`, redundant parentheses are left alone (both sides have them).
+fn normalise_for_cross_check(ts: proc_macro2::TokenStream) -> proc_macro2::TokenStream {
+    use proc_macro2::{Group, Literal, TokenTree};
+    let v: Vec<TokenTree> = ts.into_iter().collect();
+    let mut out: Vec<TokenTree> = Vec::new();
+    let mut i = 0;
+    let is_p = |t: &TokenTree, c: char| matches!(t, TokenTree::Punct(p) if p.as_char() == c);
+    let is_i = |t: &TokenTree, s: &str| matches!(t, TokenTree::Ident(id) if id == s);
+    while i < v.len() {
+        // `:: core :: stringify ! ( x )` -> "x"
+        if i + 7 < v.len()
+            && is_p(&v[i], ':')
+            && is_p(&v[i + 1], ':')
+            && is_i(&v[i + 2], "core")
+            && is_p(&v[i + 3], ':')
+            && is_p(&v[i + 4], ':')
+            && is_i(&v[i + 5], "stringify")
+            && is_p(&v[i + 6], '!')
+        {
+            if let TokenTree::Group(g) = &v[i + 7] {
+                out.push(TokenTree::Literal(Literal::string(&g.stream().to_string())));
+                i += 8;
+                continue;
+            }
+        }
+        // `unreachable!()` and its expansion
+        if i + 2 < v.len() && is_i(&v[i], "unreachable") && is_p(&v[i + 1], '!') {
+            if let TokenTree::Group(g) = &v[i + 2] {
+                if g.stream().is_empty() {
+                    out.push(TokenTree::Ident(proc_macro2::Ident::new("__unreachable", proc_macro2::Span::call_site())));
+                    i += 3;
+                    continue;
+                }
+            }
+        }
+        if i + 9 < v.len()
+            && is_p(&v[i], ':')
+            && is_p(&v[i + 1], ':')
+            && is_i(&v[i + 2], "core")
+            && is_i(&v[i + 5], "panicking")
+            && is_i(&v[i + 8], "panic")
+        {
+            if let TokenTree::Group(g) = &v[i + 9] {
+                if g.stream().to_string().contains("entered unreachable code") {
+                    out.push(TokenTree::Ident(proc_macro2::Ident::new("__unreachable", proc_macro2::Span::call_site())));
+                    i += 10;
+                    continue;
+                }
+            }
+        }
+        match &v[i] {
+            TokenTree::Punct(p) if p.as_char() == ',' => {
+                let after_brace = i > 0
+                    && matches!(&v[i - 1], TokenTree::Group(g) if g.delimiter() == proc_macro2::Delimiter::Brace);
+                if after_brace {
+                    i += 1;
+                    continue;
+                }
+                let last = i + 1 == v.len();
+                let before_brace = matches!(v.get(i + 1), Some(TokenTree::Group(g)) if g.delimiter() == proc_macro2::Delimiter::Brace);
+                if !(last || before_brace) {
+                    out.push(v[i].clone());
+                }
+            }
+            TokenTree::Group(g) => {
+                out.push(TokenTree::Group(Group::new(g.delimiter(), normalise_for_cross_check(g.stream()))));
+            }
+            t => out.push(t.clone()),
+        }
+        i += 1;
+    }
+    out.into_iter().collect()
 }
